@@ -66,27 +66,28 @@ theorem smoothWork_le (l : Loc) : smoothWork l ≤ 8 := by
 
 /-! ### `_event_stream` with the identity test makes no calls -/
 
-theorem evBoundaries_id (cfg : Cfg) (h : cfg.neIdentity = true) (p : Node) (ks : List Node) :
-    evBoundaries cfg p ks = 0 := by
-  induction ks with
-  | nil => simp [evBoundaries]
-  | cons k ks ih =>
-    simp only [evBoundaries]
-    split
-    · rfl
-    · have : loopMax (spine k) (cmpCost cfg p) = 0 := loopMax_zero _ _ (fun x _ => by simp [cmpCost, h])
-      simp [this, sameCost, h, ih]
-
 mutual
 theorem evCmp_id (cfg : Cfg) (h : cfg.neIdentity = true) (t : Node) : evCmp cfg t = 0 := by
   cases t with
   | str v => simp [evCmp]
-  | tag n a kx v ks => simp [evCmp, sameCost, h, evBoundaries_id cfg h, evCmpL_id cfg h ks]
-theorem evCmpL_id (cfg : Cfg) (h : cfg.neIdentity = true) (l : List Node) : evCmpL cfg l = 0 := by
+  | tag n a kx v ks => simp only [evCmp]; exact evKids_id cfg h _ [] ks
+theorem evKids_id (cfg : Cfg) (h : cfg.neIdentity = true) (p : Node) (s l : List Node) : evKids cfg p s l = 0 := by
   cases l with
-  | nil => simp [evCmpL]
-  | cons k ks => simp [evCmpL, evCmp_id cfg h k, evCmpL_id cfg h ks]
+  | nil => simp [evKids]
+  | cons k ks =>
+    have : loopMax s (cmpCost cfg p) = 0 := loopMax_zero _ _ (fun x _ => by simp [cmpCost, h])
+    simp [evKids, this, sameCost, h, evCmp_id cfg h k, evKids_id cfg h p (spineD k) ks]
 end
+
+theorem evKidsTop_id (cfg : Cfg) (h : cfg.neIdentity = true) (p : Node) (s l : List Node) : evKidsTop cfg p s l = 0 := by
+  induction l generalizing s with
+  | nil => simp [evKidsTop]
+  | cons k ks ih =>
+    have : loopMax s (cmpCost cfg p) = 0 := loopMax_zero _ _ (fun x _ => by simp [cmpCost, h])
+    simp [evKidsTop, this, evCmp_id cfg h k, ih]
+
+theorem eventStreamContentsDepth_id (cfg : Cfg) (h : cfg.neIdentity = true) (l : Loc) : eventStreamContentsDepth cfg l = 3 := by
+  simp [eventStreamContentsDepth, evCmpContents, evKidsTop_id cfg h, descGenDepth_eq, call]
 
 theorem eventStreamDepth_id (cfg : Cfg) (h : cfg.neIdentity = true) (l : Loc) : eventStreamDepth cfg l = 4 := by
   simp [eventStreamDepth, evCmp_id cfg h, descGenDepth_eq, call]
@@ -202,13 +203,13 @@ theorem eqDepth_chainTS (n : Nat) :
 theorem evCmp_chainTT (cfg : Cfg) (h : cfg.neIdentity = false) (n : Nat) :
     2 * n + 2 ≤ evCmp cfg (chainWithTrailingText (n + 1)) := by
   have e : chainWithTrailingText (n + 1) = .tag 1 0 true false [chainWithTrailingText n, .str 2] := rfl
-  have hs : chainWithTrailingText n ∈ spine (chainWithTrailingText n) := by
-    cases n <;> simp [chainWithTrailingText, spine]
-  have h1 := le_loopMax (spine (chainWithTrailingText n)) (cmpCost cfg (chainWithTrailingText (n + 1))) _ hs
+  have hs : chainWithTrailingText n ∈ spineD (chainWithTrailingText n) := by
+    cases n <;> simp [chainWithTrailingText, spineD]
+  have h1 := le_loopMax (spineD (chainWithTrailingText n)) (cmpCost cfg (chainWithTrailingText (n + 1))) _ hs
   have h2 := eqDepth_chainTT n
   simp only [cmpCost, h, neDepth] at h1
   rw [e] at h1 ⊢
-  simp only [evCmp, evBoundaries, List.isEmpty_cons, List.isEmpty_nil]
+  simp only [evCmp, evKids]
   simp only [Bool.false_eq_true, ↓reduceIte] at h1 ⊢
   rw [e] at h2
   omega
@@ -216,13 +217,41 @@ theorem evCmp_chainTT (cfg : Cfg) (h : cfg.neIdentity = false) (n : Nat) :
 theorem evCmp_chainTS (cfg : Cfg) (h : cfg.neIdentity = false) (n : Nat) :
     2 * n + 2 ≤ evCmp cfg (chainWithTrailingSibling (n + 1)) := by
   have e : chainWithTrailingSibling (n + 1) = .tag 1 0 true false [chainWithTrailingSibling n, .tag 2 0 true false []] := rfl
-  have hs : chainWithTrailingSibling n ∈ spine (chainWithTrailingSibling n) := by
-    cases n <;> simp [chainWithTrailingSibling, spine]
-  have h1 := le_loopMax (spine (chainWithTrailingSibling n)) (cmpCost cfg (chainWithTrailingSibling (n + 1))) _ hs
+  have hs : chainWithTrailingSibling n ∈ spineD (chainWithTrailingSibling n) := by
+    cases n <;> simp [chainWithTrailingSibling, spineD]
+  have h1 := le_loopMax (spineD (chainWithTrailingSibling n)) (cmpCost cfg (chainWithTrailingSibling (n + 1))) _ hs
   have h2 := eqDepth_chainTS n
   simp only [cmpCost, h, neDepth] at h1
   rw [e] at h1 ⊢
-  simp only [evCmp, evBoundaries, List.isEmpty_cons, List.isEmpty_nil]
+  simp only [evCmp, evKids]
+  simp only [Bool.false_eq_true, ↓reduceIte] at h1 ⊢
+  rw [e] at h2
+  omega
+
+theorem evCmpContents_chainTT (cfg : Cfg) (h : cfg.neIdentity = false) (n : Nat) :
+    2 * n + 2 ≤ evCmpContents cfg (chainWithTrailingText (n + 1)) := by
+  have e : chainWithTrailingText (n + 1) = .tag 1 0 true false [chainWithTrailingText n, .str 2] := rfl
+  have hs : chainWithTrailingText n ∈ spineD (chainWithTrailingText n) := by
+    cases n <;> simp [chainWithTrailingText, spineD]
+  have h1 := le_loopMax (spineD (chainWithTrailingText n)) (cmpCost cfg (chainWithTrailingText (n + 1))) _ hs
+  have h2 := eqDepth_chainTT n
+  simp only [cmpCost, h, neDepth] at h1
+  rw [e] at h1 ⊢
+  simp only [evCmpContents, kidsOf, evKidsTop]
+  simp only [Bool.false_eq_true, ↓reduceIte] at h1 ⊢
+  rw [e] at h2
+  omega
+
+theorem evCmpContents_chainTS (cfg : Cfg) (h : cfg.neIdentity = false) (n : Nat) :
+    2 * n + 2 ≤ evCmpContents cfg (chainWithTrailingSibling (n + 1)) := by
+  have e : chainWithTrailingSibling (n + 1) = .tag 1 0 true false [chainWithTrailingSibling n, .tag 2 0 true false []] := rfl
+  have hs : chainWithTrailingSibling n ∈ spineD (chainWithTrailingSibling n) := by
+    cases n <;> simp [chainWithTrailingSibling, spineD]
+  have h1 := le_loopMax (spineD (chainWithTrailingSibling n)) (cmpCost cfg (chainWithTrailingSibling (n + 1))) _ hs
+  have h2 := eqDepth_chainTS n
+  simp only [cmpCost, h, neDepth] at h1
+  rw [e] at h1 ⊢
+  simp only [evCmpContents, kidsOf, evKidsTop]
   simp only [Bool.false_eq_true, ↓reduceIte] at h1 ⊢
   rw [e] at h2
   omega
